@@ -858,6 +858,16 @@ V("c22-wrapper-init-gains-required-parameter", "C22", "R22.4", "dask_array/_fris
   "    def __init__(self, name, func, chunks, kwargs=None):", "    def __init__(self, name, func, chunks, dtype, kwargs=None):", expect="CreationLayer")
 V("c22-twin-expression-calls-wrapper-with-keywords", "C22", "-", "dask_array/io/_from_array.py",
   "            return FromArrayLayer(self._name, self.array, self.chunks, self.operand(\"_region\"))", "            return FromArrayLayer(self._name, self.array, self.chunks, region=self.operand(\"_region\"))", twin=True)
+V("c21-resolve-skips-tuple-elements", "C21", "R21.8", "dask_array/_frisky/graph_records.py",
+  "        if isinstance(arg, tuple):\n            return tuple(self.resolve(a, deps) for a in arg)", "        if isinstance(arg, tuple):\n            return tuple(a for a in arg)", expect="resolve")
+V("c21-resolve-dict-values-untranslated", "C21", "R21.8", "dask_array/_frisky/graph_records.py",
+  "            return {k: self.resolve(v, deps) for k, v in arg.items()}", "            return {k: v for k, v in arg.items()}", expect="resolve")
+V("c21-twin-resolve-list-as-loop", "C21", "-", "dask_array/_frisky/graph_records.py",
+  "        if isinstance(arg, list):\n            return [self.resolve(a, deps) for a in arg]", "        if isinstance(arg, list):\n            out = []\n            for a in arg:\n                r = self.resolve(a, deps)\n                out.append(r)\n            return out", twin=True)
+V("c06-percentile-token-forgets-method", "C06", "R06.9", "dask_array/reductions/_percentile.py",
+  "        token = tokenize(a, q, method)", "        token = tokenize(a, q, internal_method)", expect="percentile")
+V("c06-twin-percentile-token-via-local", "C06", "-", "dask_array/reductions/_percentile.py",
+  "        token = tokenize(a, q, method)", "        ingredients = (a, q, method)\n        token = tokenize(*ingredients)", twin=True)
 V("c02-detector-uses-forward-permutation", "C02", "R02.6", "dask_array/_blockwise.py",
   "        inv = expr._inverse_axes\n        dep_mapping = tuple(parent_mapping[inv[i]] for i in range(len(inv)))", "        dep_mapping = tuple(parent_mapping[ax] for ax in expr.axes)", expect="_symbolic_mapping")
 V("c02-twin-detector-local-rename", "C02", "-", "dask_array/_blockwise.py",
